@@ -18,7 +18,8 @@ proved, for all histories and without bounds:
   establish heap order, `Pop`/`Remove 0`/`Clear` preserve it, so on every history without `Add`
   and interior `Remove` `Front`/`Pop` return a minimal held element and draining is non-decreasing.
 * `C05_partial_order_wide`: the same conclusions on the wider, state-dependent fragment `allowedRun`:
-  additionally `Remove i` of the **last** slot or out of range (`i + 1 ≥ len`: no sift) and `Add v` of an
+  additionally `Remove i` of the **last** slot or out of range (`i + 1 ≥ len`: no sift), `Remove i` with
+  `i ≤ 2` (the moved element's new parent is the root: F2 needs an interior offset `≥ 3`) and `Add v` of an
   element not smaller than any held one (monotone insertion: `pushUp` never swaps, F1 is not reached).
 * `sort_correct`: `heapq.Sort` leaves a sorted permutation (it only uses `NewWithData` + `Pop`).
 * `C05_full`: for the *repaired* configuration (`parent i = (i-1)/2`, sift-up in `pop`) the ordering
@@ -384,11 +385,12 @@ theorem C05_partial_order (ops : List (Op α)) (hall : ∀ op ∈ ops, allowedOp
 
 /-- operations that provably keep heap order on the pinned code, given the current state: everything of
 `allowedOp`, plus `Remove i` with `i + 1 ≥ len` (the **last** slot — no element moves, no sift — or out of
-range), plus `Add v` of an element that is not smaller than any held one (`pushUp`'s one comparison fails,
-whatever the parent index is: monotone insertion never reaches F1) -/
+range) or `i ≤ 2` (the new parent of the moved element is the root: no sift-up is needed), plus `Add v` of
+an element that is not smaller than any held one (`pushUp`'s one comparison fails, whatever the parent
+index is: monotone insertion never reaches F1) -/
 def allowedAt (lt : α → α → Bool) (s : S α) : Op α → Bool
   | .add v => s.h.data.all (fun x => !(s.lt lt) v x)
-  | .remove i => i == 0 || decide (s.h.len ≤ i + 1)
+  | .remove i => decide (i ≤ 2) || decide (s.h.len ≤ i + 1)
   | _ => true
 
 /-- every operation of the history is allowed in the state in which it is executed -/
@@ -429,9 +431,15 @@ theorem step_heapOK_wide (hc : CfgOK cfg) (s : S α) (op : Op α) (ha : allowedA
     simp only [allowedAt, List.all_eq_true, Bool.not_eq_true'] at ha
     exact ha x hx
   | remove i =>
-    simp only [allowedAt, Bool.or_eq_true, beq_iff_eq, decide_eq_true_eq] at ha
-    rcases ha with h0 | hlast
-    · subst h0; exact (C05_pop_preserves hs ho s hh).2
+    simp only [allowedAt, Bool.or_eq_true, decide_eq_true_eq] at ha
+    rcases ha with h2 | hlast
+    · simp only [step]
+      split
+      · exact hh
+      · rename_i hlt
+        show HeapOK (s.lt lt) (pop cfg (s.lt lt) s.h i).1.data
+        rw [heapOK_iff] at hh ⊢
+        exact pop_shallow_heap hs (orderOK_dir ho s) s.h i (by omega) h2 hh
     · simp only [step]
       split
       · exact hh
@@ -450,8 +458,8 @@ theorem step_heapOK_wide (hc : CfgOK cfg) (s : S α) (op : Op α) (ha : allowedA
 
 /-- **C05, the wider part that holds of the pinned code** (F1 and F2 present): the conclusions of
 `C05_partial_order` on every history each of whose operations is, in the state in which it is executed,
-one of `NewWithData, Set, Reorder, Pop, Clear, Front, Peek, Len`, `Remove i` with `i = 0` or `i + 1 ≥ len`
-(root, last slot, out of range), or `Add v` with `v` not smaller than any held element (`allowedRun`).
+one of `NewWithData, Set, Reorder, Pop, Clear, Front, Peek, Len`, `Remove i` with `i ≤ 2` or `i + 1 ≥ len`
+(root, a child of the root, last slot, out of range), or `Add v` with `v` not smaller than any held element (`allowedRun`).
 Contains the fragment of `C05_partial_order` (`allowedRun_of_allowedOp`). -/
 theorem C05_partial_order_wide (hc : CfgOK cfg) (ops : List (Op α)) (s0 : S α)
     (hall : allowedRun cfg lt s0 ops = true) (h0 : HeapOK (s0.lt lt) s0.h.data) :
@@ -775,11 +783,11 @@ removal of the last slot and out of range, `Pop`s in between; it is not in the o
 witness histories are outside the wider one -/
 def wideOps : List (Op Nat) :=
   [.add 10, .add 20, .add 21, .add 30, .add 45, .add 50, .add 51, .add 60, .remove 7, .pop, .add 70, .remove 9,
-   .remove 6, .pop, .add 80, .add 85, .front]
+   .remove 6, .pop, .add 80, .add 85, .remove 2, .remove 1, .front]
 
 example : allowedRun Drv.C05.cfg Drv.C05.ltKey {} wideOps = true ∧
     (∃ op ∈ wideOps, allowedOp op = false) ∧
-    (runS Drv.C05.cfg Drv.C05.ltKey {} wideOps).h.data = [21, 30, 50, 51, 45, 80, 85] ∧
+    (runS Drv.C05.cfg Drv.C05.ltKey {} wideOps).h.data = [21, 45, 85, 51, 80] ∧
     allowedRun Drv.C05.cfg Drv.C05.ltKey {} f1Ops = false ∧
     allowedRun Drv.C05.cfg Drv.C05.ltKey {} f2Ops = false := by decide
 
